@@ -14,8 +14,8 @@ PROGRAMS = {1: "rwp::Resource with guards", 2: "ThreadPool owner + expiring work
             4: "tulz::Thread start / isFinished / join"}
 
 
-def build_tsan():
-    outdir = os.path.join(BUILD, "C15")
+def build_tsan(pid="C15"):
+    outdir = os.path.join(BUILD, pid)
     os.makedirs(outdir, exist_ok=True)
     exe = os.path.join(outdir, "race_tsan")
     cmd = [CXX, "-std=c++20", "-O1", "-g", "-fsanitize=thread", f"-I{REPO}/include", os.path.join(VERIF, "harness", "race.cpp")] + \
@@ -24,8 +24,9 @@ def build_tsan():
     return rc == 0, exe, so + se
 
 
-def parse_reports(stderr):
-    """-> list of (signature, text) for data races whose accesses are in tulz code"""
+def parse_reports(stderr, anywhere=False):
+    """-> list of (signature, text) for data races whose accesses are in tulz code (anywhere = also in the program's own code:
+    used by the hand-over program, where the racing accesses are the callable's and the owner's)"""
     out = []
     for blk in re.split(r"(?m)^={18}\n", stderr):
         if "WARNING: ThreadSanitizer: data race" not in blk:
@@ -34,7 +35,7 @@ def parse_reports(stderr):
         tops = re.findall(r"(?m)^\s+(?:Previous )?(?:[Aa]tomic )?(?:[Ww]rite|[Rr]ead) of size \d+ at [^\n]*\n\s+#0 ([^\n]*)", blk)
         if not tops:
             continue
-        if not any("/repo/" in t or "tulz::" in t for t in tops):
+        if not anywhere and not any("/repo/" in t or "tulz::" in t for t in tops):
             continue            # e.g. libstdc++'s lazily filled ctype cache inside std::regex: not tulz code
         locs = sorted({re.sub(r"\s*\([^)]*\+0x[0-9a-f]+\)", "", re.sub(r"0x[0-9a-f]+", "", t)).strip()[:110] for t in tops})
         out.append(("data race: " + " <-> ".join(locs), blk[:4000]))
